@@ -736,7 +736,7 @@ impl Check for C08 {
         lc_finding_key(v)
     }
     fn rule() -> &'static str {
-        "one run = one world of the statement's literal class: 1-4 ECUs, 1-6 sequential boots each (off time >= 1 ms), one constant transport delay per boot (0-90 s), messages of a boot in arbitrary stream order (sorted, shuffled, reversed), boots of 1-2 messages, first timestamp 0, optional > 10 s reception gap inside a boot, ECUs interleaved arbitrarily; the detected partition, starts, ends and counts are compared with the ground truth; members of the known late-connect family are drawn at a fixed low rate (4 % of boot pairs); non-trivial = more than one boot"
+        "one run = one world of the statement's literal class: 1-4 ECUs, 1-6 sequential boots each (off time >= 1 ms), one constant transport delay per boot (0-90 s), messages of a boot in arbitrary stream order (sorted, shuffled, reversed), boots of 1-2 messages, first timestamp 0, optional > 10 s reception gap inside a boot, ECUs interleaved arbitrarily, one ECU in twelve recorded by a clock that starts at the epoch (boot time + delay may be 0, a timestamp may equal its reception time); the detected partition, starts, ends and counts are compared with the ground truth; members of the known late-connect family are drawn at a fixed low rate (4 % of boot pairs); non-trivial = more than one boot"
     }
     fn assumptions() -> Vec<&'static str> {
         vec![
